@@ -74,6 +74,10 @@ Inductive case :=
   | CT (dir : tb_dir) (limit inmem : Z) (act : tb_action) (access engine_on : bool) (bp : tb_bproc)
        (processable deny : bool) (phase0 : Z) (body : bodyspec) (calls : list ccall)
        (rets : list oret) (fin : ofinal)
+  (* the same with RuleEngine = DetectionOnly (engine_on is ignored) *)
+  | CTD (dir : tb_dir) (limit inmem : Z) (act : tb_action) (access engine_on : bool) (bp : tb_bproc)
+       (processable deny : bool) (phase0 : Z) (body : bodyspec) (calls : list ccall)
+       (rets : list oret) (fin : ofinal)
   (* buffer level: writes of consecutive pieces of the body / Reset on NewBodyBuffer(limit, mem);
      observed (n, err) per op, final contents, Size(), spilled *)
   | CB (limit mem : Z) (body : bytes) (ops : list bop) (rets : list (Z * bool))
@@ -113,15 +117,14 @@ Fixpoint bb_ops (o : bbopt) (b : bbuf) (body : bytes) (ops : list bop) : bbuf * 
     let '(b2, os) := bb_ops o b1 (skipn n body) r in (b2, (w, e) :: os)
   end.
 
-Definition ok (c : case) : bool :=
-  match c with
-  | CT dir limit inmem act access eng bp proc deny phase0 body calls rets fin =>
+Definition ok_tx (det : bool) dir limit inmem act access eng bp proc deny phase0 body calls rets fin : bool :=
     let w := {| w_req_limit := match dir with Req => limit | Resp => 134217728 end;
                 w_req_inmem := if inmem <=? 0 then None else Some inmem;
                 w_resp_limit := match dir with Req => 524288 | Resp => limit end |} in
-    let cfg := {| c_dir := dir; c_opt := waf_buf_opts w dir; c_action := act;
+    let cfg0 := {| c_dir := dir; c_opt := waf_buf_opts w dir; c_action := act;
                   c_access := access; c_engine_on := eng; c_bp := bp; c_processable := proc;
                   c_deny := deny |} in
+    let cfg := if det then engine_cfg EngDetectionOnly cfg0 else cfg0 in
     let '(s, os) := run_obs cfg (tb_init cfg phase0) (decode (body_of body) calls) in
     let panicked := existsb (fun '(_, _, f, _) => 2 <=? f) os in
     list_eqb oret_eqb os rets &&
@@ -138,7 +141,14 @@ Definition ok (c : case) : bool :=
       && (s_phase s =? f_phase fin)
       && Bool.eqb (bb_spilled (s_buf s)) (f_spilled fin)
       && (intr_code (s_intr s) =? f_intr fin)
-      && bytes_eqb (body_length_var cfg s) (f_lenvar fin)))
+      && bytes_eqb (body_length_var cfg s) (f_lenvar fin))).
+
+Definition ok (c : case) : bool :=
+  match c with
+  | CT dir limit inmem act access eng bp proc deny phase0 body calls rets fin =>
+    ok_tx false dir limit inmem act access eng bp proc deny phase0 body calls rets fin
+  | CTD dir limit inmem act access eng bp proc deny phase0 body calls rets fin =>
+    ok_tx true dir limit inmem act access eng bp proc deny phase0 body calls rets fin
   | CB limit mem body ops rets contents size spilled =>
     let o := {| bo_limit := limit; bo_mem := mem |} in
     let '(b, os) := bb_ops o bb_empty body ops in
